@@ -405,3 +405,8 @@ def _runtime(ct, tier, seed):
 
 contract('C17.runtime', [PR + ':PolarizedRays.update', PR + ':PolarizedRays.update_intensity', 'optiland/coatings.py:BaseCoatingPolarized.transmit',
                          'optiland/coatings.py:BaseCoating._compute_aoi', 'optiland/optic.py:Optic.trace'], ['C17'], custom=_runtime)(lambda c: None)
+
+
+# concrete inputs found by the defect-hunting sub-agents (bounded replay, see contracts/hunt.py)
+from . import hunt as _hunt  # noqa: E402
+_hunt.register('C17')
